@@ -14,9 +14,9 @@ from vlib import AU_INC, Driver, cxx, finish, kv, pmap, prove, rng_for, run, wor
 PROP = "C10"
 ASSUME = [
     "rational scales and rational origin offsets (the property's domain); origins are integer counts of a scaled unit",
-    "the Lean theorems cover CommonOrigin (minimum, order independence), divisibility of CommonPointUnit::Mag into every unit "
-    "magnitude and every displacement unit magnitude, and the symmetry of FlatDedupedTypeList; that the library assembles these "
-    "pieces as modelled is the correspondence (mag of the result, measured affine map of every input)",
+    "C10_affine_full is a theorem about the model function commonPointAssembly (common origin, displacement units, Mag); that the "
+    "library's CommonPointUnit IS that function is the correspondence (magnitude of the result and measured affine map of every "
+    "input, every run); the symmetry of the type is proved for every strict total unit order (C10_perm)",
 ]
 
 PRELUDE = '''#include <cstdio>
